@@ -65,3 +65,16 @@ Proof. vm_compute. reflexivity. Qed.
 (* immediates: signed exactly for the letters r R s S, always 32 bit *)
 Theorem C07_immediates : forall l, imm_signed l = imm_signed_c l.
 Proof. intros l. reflexivity. Qed.
+
+(* ------------------------------------------------------------------ the width / signedness tables ARE the compiler's *)
+(* get_value_type_from_reg_type and get_value_type_by_isa_imm are EXECUTED on their whole domains on every run (every ASCII letter as
+   register class x every access terminal; every ASCII letter as immediate letter: gen/OpTablesGen.v, tools/vt/tr_optables.py);
+   OpTables.reg_width / imm_signed, which the binding theorems above use, agree with every row *)
+From RZ.gen Require Import OpTablesGen.
+From RZ.proofs Require Import OpTablesProofs.
+Theorem C07_width_tables_are_the_compilers :
+  forallb (fun r : string * bool * option (bool * N) => let '(c, isp, t) := r in
+             otype_eqb t (option_map (fun w => (true, if isp then (w * 2)%N else w)) (reg_width c))) reg_type_table = true /\
+  forallb (fun r : string * option (bool * N) => otype_eqb (snd r) (Some (imm_signed (fst r), 32%N))) imm_type_table = true.
+Proof. exact (conj reg_type_table_ok imm_type_table_ok). Qed.
+Print Assumptions C07_width_tables_are_the_compilers.
